@@ -154,6 +154,7 @@ pub fn run_all(thorough: bool) -> (u64, u64, Vec<(String, String, serde_json::Va
         let bound = if thorough { 3 } else { 2 };
         let mut traces = BTreeSet::new();
         let mut found: Vec<(String, String, Vec<usize>)> = vec![];
+        crate::evidence::watchdog::set_context(serde_json::json!({"engine":"c19-e2e","scenario":scn.name}));
         let stats = explore(bound, if thorough { 500_000 } else { 40_000 }, |prefix| run_one(&rt, scn, prefix), |prefix, _d, ex| {
             traces.insert(ex.outcome.trace.clone());
             for (sub, msg) in &ex.outcome.viols {
